@@ -134,29 +134,32 @@ theorem secInstall_good (n : Nat) (b : Bytes) (o : Offer) (out : Bytes) (hst : S
     number must carry the same bytes. -/
 theorem updateCore_good (base) (sc : UpdateScript) (n : Nat) (b : Bytes) (hst : Settled d cfg.version)
     (hn : ∀ r, sc.resp = some r → n ∉ r.rolledBack.getD [])
-    (hsame : ∀ o s bs out, sc.resp.bind (·.patch) = some o → o.number = n → sc.dl = some s →
-      bipatchDecode s bs = .ok out → out = b)
+    (hsame : (updateCore env cfg base d sc).2.1 = .installed → ∀ o, sc.resp.bind (·.patch) = some o → o.number = n →
+      (updateCore env cfg base d sc).1.art n = some (.file b))
     (h : GoodD env cfg.key d n b) : GoodD env cfg.key (updateCore env cfg base d sc).1 n b := by
-  unfold updateCore
-  simp only []
-  rw [secCopyEvents_disk cfg d hst]
+  unfold updateCore at hsame ⊢
+  simp only [] at hsame ⊢
+  rw [secCopyEvents_disk cfg d hst] at hsame ⊢
   have h1 := secClearEvents_settled cfg d hst
   have s1 := secClearEvents_good env cfg d n b hst h
   cases hresp : sc.resp with
   | none => exact s1
   | some r =>
-    simp only
+    simp only [hresp] at hsame ⊢
     have h2 := rollBackIfNeeded_settled env cfg _ r.rolledBack h1
     have s2 := rollBackIfNeeded_good env cfg _ n b r.rolledBack h1 (hn r hresp) s1
     rcases afterCheck_cases env cfg base (secClearEvents cfg d) r sc.dl with ⟨_, hd⟩ | ⟨o, stream, bb, out, hp, _, _, e1, e2, e3, _, e5, e6⟩
     · rcases hd with hd | ⟨o, _, hd⟩
       · rw [hd]; exact s2
       · rw [hd]; exact shouldInstall_good env cfg _ n b o.number h2 s2
-    · rw [e6]
+    · rw [e6] at hsame ⊢
       have h3 := shouldInstall_settled env cfg _ o.number h2
       have s3 := shouldInstall_good env cfg _ n b o.number h2 s2
-      exact secInstall_good env cfg _ n b o out h3
-        (fun hk => hsame o stream bb out (by simp [hresp, hp]) hk e1 e3) e5 s3
+      refine secInstall_good env cfg _ n b o out h3 ?_ e5 s3
+      intro hk
+      have ha := hsame rfl o (by simp [hp]) hk
+      rw [← hk, art_secInstall cfg _ o out h3, art_addPatch_self] at ha
+      simpa using ha
 
 end
 
@@ -215,13 +218,8 @@ namespace Updater
 
 /-! ### admissible histories and the invariant -/
 
-/-- Re-installing the number of the last good patch delivers the same bytes (the server does not
-    re-issue a patch number with different content). -/
-def SameBytes (g : G03) (op : Op) : Prop :=
-  ∀ n b, g.good = some (n, b) → ∀ chan sc o s bs out, op = .update chan sc → sc.resp.bind (·.patch) = some o →
-    o.number = n → sc.dl = some s → bipatchDecode s bs = .ok out → out = b
-
-def Adm03 (K : Option String) (g : G03) (op : Op) : Prop := InitKey K op ∧ SameBytes g op
+/-- Admissible histories: one public key per history (it is compiled into the app). -/
+def Adm03 (K : Option String) (_g : G03) (op : Op) : Prop := InitKey K op
 
 def Inv03 (env : Env) (K : Option String) (w : World) (g : G03) : Prop :=
   g.cfg = w.config ∧ (∀ c, w.config = some c → c.key = K) ∧
@@ -351,8 +349,8 @@ theorem opDisk_good (env : Env) (K : Option String) (c : Config) (w : World) (op
     (hst : Settled w.disk c.version) (hns : op ≠ .success)
     (hnr : resetsState w.config op pre = false) (hf : failedBy w.config op pre ≠ some n)
     (hrb : (rolledBackBy w.config op).contains n = false)
-    (hsame : ∀ chan sc o s bs out, op = .update chan sc → sc.resp.bind (·.patch) = some o →
-      o.number = n → sc.dl = some s → bipatchDecode s bs = .ok out → out = b)
+    (hsame : ∀ chan sc, op = .update chan sc → (updateCore env c (w.base c) w.disk sc).2.1 = .installed →
+      ∀ o, sc.resp.bind (·.patch) = some o → o.number = n → (updateCore env c (w.base c) w.disk sc).1.art n = some (.file b))
     (h : GoodD env K w.disk n b) : GoodD env K (opDisk env c w op) n b := by
   rw [← hck] at h ⊢
   cases op with
@@ -381,7 +379,7 @@ theorem opDisk_good (env : Env) (K : Option String) (c : Config) (w : World) (op
       rw [this] at hrb; cases hrb
   | update chan sc =>
     have hc : w.config = some c := he
-    refine updateCore_good env c w.disk (w.base c) sc n b hst ?_ (fun o s bs out => hsame chan sc o s bs out rfl) h
+    refine updateCore_good env c w.disk (w.base c) sc n b hst ?_ (hsame chan sc rfl) h
     intro r hr hmem
     have : (rolledBackBy w.config (.update chan sc)).contains n = true := by
       simp [rolledBackBy, hc, Op.respOf, hr, hmem]
@@ -505,6 +503,13 @@ theorem Step03.blind (env : Env) (K : Option String) (w : World) (g : G03) (op :
   art := by intro n b b' _ h; cases h
   fall := by intro x c _ _ h; cases h
 
+theorem installedBy_noenter (env : Env) (w : World) (op : Op) (he : entersWith w.config op = none) :
+    installedBy op (postView env w op) = none := by
+  cases op <;> simp [installedBy]
+  case update chan sc =>
+    simp only [entersWith] at he
+    simp [postView, step, update, he, World.view]
+
 /-- Operations that do not load the stored state. -/
 theorem step03_noenter (env : Env) (K : Option String) (w : World) (g : G03) (op : Op) (pre : View)
     (hinv : Inv03 env K w g) (he : entersWith w.config op = none) :
@@ -515,6 +520,8 @@ theorem step03_noenter (env : Env) (K : Option String) (w : World) (g : G03) (op
   have hsucc : succeededBy g.cfg op pre = none := by rw [hcfg]; exact succeededBy_noenter w op pre he
   have hfail : failedBy g.cfg op pre = none := by rw [hcfg]; exact failedBy_noenter w op pre he
   have hrbe : rolledBackBy g.cfg op = [] := by rw [hcfg]; exact rolledBackBy_noenter w op he
+  have hre : ∀ n b, reissued op (postView env w op) n b = false := by
+    intro n b; simp [reissued, installedBy_noenter env w op he]
   have nofall : ∀ (c : Config), entersWith g.cfg op = some c → False := by
     intro c hc; rw [hcfg, he] at hc; cases hc
   cases hsd : op.isStateDamage with
@@ -544,7 +551,7 @@ theorem step03_noenter (env : Env) (K : Option String) (w : World) (g : G03) (op
         exact Step03.blind env K w g op pre
       | false =>
         have hg' : G03.next env g op pre (postView env w op) = { cfg := trackCfg g.cfg op, good := some (n, b), blind := g.blind } := by
-          simp [G03.next, hnr, hsucc, hsd, hg, hh, hfail, hrbe]
+          simp [G03.next, hnr, hsucc, hsd, hg, hh, hfail, hrbe, hre]
         rw [hg']
         have hG : GoodD env K (step env w op).1.disk n b := by
           rw [hd]; exact GoodD_congr env K _ _ n b (noenter_pj w op hsd) (noenter_art w op n hh) (hgood n b hg)
@@ -614,6 +621,7 @@ theorem step03_success (env : Env) (K : Option String) (w : World) (g : G03) (pr
     intro g' x hx hne; exact absurd (hnext x hx) hne
   have hfail : failedBy g.cfg .success pre = none := by simp [failedBy, hnr]
   have hrbe : rolledBackBy g.cfg .success = [] := by unfold rolledBackBy; cases g.cfg <;> simp [Op.respOf]
+  have hre : ∀ n b, reissued .success (postView env w .success) n b = false := by intro n b; simp [reissued, installedBy]
   cases hb : (loadPatchesState w.disk).booting with
   | none =>
     have hsucc : succeededBy g.cfg .success pre = none := by
@@ -631,7 +639,7 @@ theorem step03_success (env : Env) (K : Option String) (w : World) (g : G03) (pr
       obtain ⟨n, b⟩ := nb
       have hg' : G03.next env g .success pre (postView env w .success) =
           { cfg := trackCfg g.cfg .success, good := some (n, b), blind := g.blind } := by
-        simp [G03.next, hnr, hsucc, hg, Op.isStateDamage, Op.hitsArt, hfail, hrbe]
+        simp [G03.next, hnr, hsucc, hg, Op.isStateDamage, Op.hitsArt, hfail, hrbe, hre]
       rw [hg']
       have hG : GoodD env K (step env w .success).1.disk n b := by rw [hsame]; exact hgood n b hg
       refine ⟨(by rw [hcfg]), ?_, (by intro h; cases h), ?_, ?_⟩
@@ -691,7 +699,7 @@ theorem failedAfter_single (w : World) (op : Op) (pre : View) (n : Nat)
 
 /-- Any other call on a settled disk. -/
 theorem step03_enter (env : Env) (K : Option String) (w : World) (g : G03) (op : Op) (pre : View) (c : Config)
-    (hsame : SameBytes g op) (hinv : Inv03 env K w g) (hs : ShowsDisk w pre) (he : entersWith w.config op = some c)
+    (hinv : Inv03 env K w g) (hs : ShowsDisk w pre) (he : entersWith w.config op = some c)
     (hck : c.key = K) (hst : Settled w.disk c.version) (hns : op ≠ .success) :
     Step03 env K w g op pre (G03.next env g op pre (postView env w op)) := by
   obtain ⟨hcfg, hK, hgood, hnolast⟩ := hinv
@@ -733,10 +741,16 @@ theorem step03_enter (env : Env) (K : Option String) (w : World) (g : G03) (op :
     obtain ⟨n, b⟩ := nb
     have hG0 := hgood n b hg
     obtain ⟨ha0, ⟨m0, hm0, hm0n⟩, _⟩ := hG0
+    by_cases hre : reissued op (postView env w op) n b = true
+    · -- the server re-issued the number of the last good patch with other bytes: tracking ends
+      have hg' : G03.next env g op pre (postView env w op) = { cfg := trackCfg g.cfg op, good := none, blind := true } := by
+        simp [G03.next, hnr, hsucc, hsd, hg, hhit n, hre]
+      rw [hg', hcfg]; exact Step03.blind env K w g op pre
+    have hre : reissued op (postView env w op) n b = false := by simpa using hre
     by_cases hf : failedBy g.cfg op pre = some n
     · -- the last good patch itself failed to boot
       have hg' : G03.next env g op pre (postView env w op) = { cfg := trackCfg g.cfg op, good := none, blind := g.blind } := by
-        simp [G03.next, hnr, hsucc, hsd, hg, hhit n, hf]
+        simp [G03.next, hnr, hsucc, hsd, hg, hhit n, hf, hre]
       rw [hg']
       have hban := step_ban env w op [] pre hs (BanD_nil _)
       rw [failedAfter_single w op pre n hnr0 hsd (by rw [← hcfg]; exact hf), hd] at hban
@@ -760,7 +774,7 @@ theorem step03_enter (env : Env) (K : Option String) (w : World) (g : G03) (op :
       · -- the last good patch was rolled back by the server
         have hg' : G03.next env g op pre (postView env w op) = { cfg := trackCfg g.cfg op, good := none, blind := g.blind } := by
           have hmem : n ∈ rolledBackBy g.cfg op := by simpa using hrbn
-          simp only [G03.next, hnr, hsucc, hsd, hg, hhit n, hf]
+          simp only [G03.next, hnr, hsucc, hsd, hg, hhit n, hf, hre]
           simp [hmem]
         rw [hg']
         have hfree := opDisk_last_rolled env c w op n he hst (by rw [← hcfg]; exact hrbn)
@@ -789,13 +803,27 @@ theorem step03_enter (env : Env) (K : Option String) (w : World) (g : G03) (op :
         have hrbf : (rolledBackBy g.cfg op).contains n = false := by simpa using hrbn
         have hg' : G03.next env g op pre (postView env w op) = { cfg := trackCfg g.cfg op, good := some (n, b), blind := g.blind } := by
           have hnmem : n ∉ rolledBackBy g.cfg op := by simpa using hrbn
-          simp only [G03.next, hnr, hsucc, hsd, hg, hhit n, hf]
+          simp only [G03.next, hnr, hsucc, hsd, hg, hhit n, hf, hre]
           simp [hnmem]
         rw [hg']
         have hG : GoodD env K (step env w op).1.disk n b := by
           rw [hd]
-          exact opDisk_good env K c w op n b pre hs he hck hst hns hnr0 (by rw [← hcfg]; exact hf) (by rw [← hcfg]; exact hrbf)
-            (fun chan sc o s bs out => hsame n b hg chan sc o s bs out) (hgood n b hg)
+          refine opDisk_good env K c w op n b pre hs he hck hst hns hnr0 (by rw [← hcfg]; exact hf) (by rw [← hcfg]; exact hrbf)
+            ?_ (hgood n b hg)
+          -- a re-install of n put exactly the bytes b in place (otherwise the monitor stopped tracking)
+          intro chan sc hop hi o ho hon
+          subst hop
+          have hc : w.config = some c := he
+          have hret : (postView env w (.update chan sc)).ret = .upd .installed := by
+            simp [postView, step, update, hc, World.view, hi]
+          have hinst : installedBy (.update chan sc) (postView env w (.update chan sc)) = some n := by
+            simp [installedBy, hret, Op.offer, Op.respOf, ho, hon]
+          have hfile : (postView env w (.update chan sc)).fileOf n = some b := by
+            simpa [reissued, hinst] using hre
+          have := (fileOf_of_shows (showsDisk_view (step env w (.update chan sc)).1 (step env w (.update chan sc)).2.1
+            (step env w (.update chan sc)).2.2) n b).1 hfile
+          rw [hd] at this
+          exact this
         refine ⟨(by rw [hcfg]), ?_, (by intro h; cases h), ?_, ?_⟩
         · intro n' b' h; simp only [Option.some.injEq, Prod.mk.injEq] at h; obtain ⟨rfl, rfl⟩ := h; exact hG
         · intro n' b0 b' h0 h1
@@ -824,8 +852,7 @@ theorem step03_enter (env : Env) (K : Option String) (w : World) (g : G03) (op :
           · rw [post_nextNum, hd, hnn, ← hll, hm1]; simp [hm1n]
           · exact hne
 
-/-- **C03.** For every model history that configures one public key and in which the server never
-    re-issues the number of the current last good patch with different bytes, the C03 monitor accepts:
+/-- **C03.** For every model history that configures one public key, the C03 monitor accepts:
     (a) from the success report of patch `n` on — every record of `n` then matching its artifact —
     the artifact of `n` keeps exactly its bytes through every later call (installs of newer and older
     numbers, re-installs of `n`, channel switches, rollbacks of other numbers, restarts, damage
@@ -841,7 +868,7 @@ theorem C03_holds (env : Env) (K : Option String) (libs : List (String × Bytes)
     intro _ _
     simp [World.fresh, Disk.empty, loadPatchesState, JFile.getD]
   · intro w g op pre hadm hinv hshow
-    obtain ⟨hop, hsame⟩ := hadm
+    have hop : InitKey K op := hadm
     have hK' := key_step env K w op hinv.2.1 hop
     have H : Step03 env K w g op pre (G03.next env g op pre (postView env w op)) := by
       cases he : entersWith w.config op with
@@ -850,7 +877,7 @@ theorem C03_holds (env : Env) (K : Option String) (libs : List (String × Bytes)
         by_cases hst : Settled w.disk c.version
         · by_cases hsu : op = .success
           · subst hsu; exact step03_success env K w g pre c hinv hshow he hst
-          · exact step03_enter env K w g op pre c hsame hinv hshow he (entersWith_key K w op c hinv.2.1 hop he) hst hsu
+          · exact step03_enter env K w g op pre c hinv hshow he (entersWith_key K w op c hinv.2.1 hop he) hst hsu
         · exact step03_unsettled env K w g op pre c hinv hshow he hst
     obtain ⟨h1, h2, h3, h4, h5⟩ := H
     refine ⟨?_, ?_, hK', h2, h3⟩
